@@ -223,7 +223,18 @@ def r08_4(rep, M, rid):
             rep.violation(rid, "setattr(wset, var, value) variable filter", "the stored attribute names are not restricted to the "
                           "position's tabulated `variables`", M.where(FQ, c))
     # verification of a candidate against all expressions and centring translations
-    wf = [s for s in ast.walk(fn) if isinstance(s, ast.Assign) and norm(s.targets[0]) == "W_final" and not isinstance(s.value, ast.Constant)]
+    # the accepted candidate: the local whose entries are stored on the set with setattr(...)
+    WF = None
+    for c0 in sets:
+        v0 = c0.args[2] if len(c0.args) > 2 else None
+        while isinstance(v0, ast.Subscript):
+            v0 = v0.value
+        if isinstance(v0, ast.Name):
+            WF = v0.id
+    if WF is None:
+        raise AnalysisError("_get_wyckoff_sets: the accepted candidate stored by setattr was not identified")
+    wf = [s for s in ast.walk(fn) if isinstance(s, ast.Assign) and norm(s.targets[0]) == WF and not isinstance(s.value, ast.Constant)
+          and not isinstance(s.value, ast.Call)]
     srch = [c for c in ast.walk(fn) if isinstance(c, ast.Call) and isinstance(c.func, ast.Attribute) and c.func.attr == "_search_periodic_positions"]
     guarded = [s for s in wf if any(isinstance(t, ast.If) and pol is True and isinstance(t.test, ast.Name)
                                     for t, pol in fl.cfg.branch_conditions(fl.node_of(s)))]
